@@ -74,6 +74,7 @@ int main(int argc, char **argv) {
     pid_t pid = fork();
     if (pid == 0) {
       sim::setChecking(true);
+      sim::resetEntropy();
       kernel_t ks = load(ser), ko = load(omp);
       Data a = makeData(dataseed), b = makeData(dataseed);
       ks(&n, a.in0, a.in1, a.out0, a.out1, a.fout);
